@@ -101,6 +101,10 @@ package storage
 //@   ensures [disabled] maximum < 0 ==> Dex == old(Dex) && result == nil
 //@   loop 1 invariant [history] forall j int :: 0 <= j && j < len(h) ==> h[j] != nil && h[j].Name == name && Dname[mkkey(name, h[j].Version)] == name
 //@   loop 1 invariant [candidates] forall p int :: 0 <= p && p < len(toDelete) ==> toDelete[p] != nil && toDelete[p].Name == name && Dname[mkkey(name, toDelete[p].Version)] == name && (lastDeployed != nil ==> toDelete[p].Version != lastDeployed.Version)
+//@   loop 1 invariant [candidates-are-the-oldest] forall p int, j int :: 0 <= p && p < len(toDelete) && #iter <= j && j < len(h) ==> toDelete[p].Version <= h[j].Version
+//@   loop 1 invariant [every-older-revision-but-the-deployed-one-is-a-candidate] len(toDelete) == #iter || (len(toDelete) == #iter - 1 && lastDeployed != nil && (exists j int :: 0 <= j && j < #iter && h[j].Version == lastDeployed.Version))
+//@   loop 1 invariant [versions-distinct] forall a, b int :: 0 <= a && a < b && b < len(h) ==> h[a].Version != h[b].Version
+//@   loop 1 invariant [history-sorted] forall a, b int :: 0 <= a && a < b && b < len(h) ==> h[a].Version <= h[b].Version
 //@   loop 2 invariant [only-removes] forall k string :: Dex[k] ==> old(Dex)[k]
 //@   loop 2 invariant [only-candidates] forall k string :: old(Dex)[k] && !Dex[k] ==> (exists p int :: 0 <= p && p < #iter && k == mkkey(name, toDelete[p].Version))
 //@   loop 2 invariant [frame] Dst == old(Dst) && Dname == old(Dname) && Dver == old(Dver)
